@@ -17,7 +17,7 @@ ASSUMPTIONS = ["knot values compared to 1e-12 against exact dyadic subdivision o
 @st.composite
 def _refine_cases(draw, tier):
     big = tier == "thorough"
-    d = draw(gen.spline(max_p=4 if big else 3, max_extra=4 if big else 3, affine_range="maybe", normalize="maybe",
+    d = draw(gen.spline(wspread=True, ranges=("far", "tiny"), max_p=4 if big else 3, max_extra=4 if big else 3, affine_range="maybe", normalize="maybe",
                         vol_max_p=2, vol_max_extra=2, long=True))
     pdim = len(d["degree"])
     hi = 1 if d.get("long") else (2 if d["kind"] == "volume" else 3)
@@ -45,8 +45,9 @@ def expected_refined(p, kv, dens):
 def check_refine(case, ctx):
     d = case["defn"]
     # the shape may have been created with the documented alternative span search (used whenever it is evaluated)
-    obj = build.make(d, find_span_func=helpers.find_span_binsearch) if case.get("binsearch") else build.make(d)
-    ctx.label("binary-span-search", bool(case.get("binsearch")))
+    use_bin = bool(case.get("binsearch")) and not build.tiny_range(d)
+    obj = build.make(d, find_span_func=helpers.find_span_binsearch) if use_bin else build.make(d)
+    ctx.label("binary-span-search", use_bin)
     if case.get("binsearch") is False and len(d["P"]) % 3 == 0:
         import copy
         obj = copy.deepcopy(obj)          # a deep copy nobody has looked at yet is refined like any other shape
@@ -85,7 +86,7 @@ def check_refine(case, ctx):
         want = expected_refined(p, kvs[k], dens[k])
         ctx.check(len(nkvs[k]) == len(want), "refined-knot-count",
                   "direction %d density %d: %d knots, expected %d (from %r to %r)" % (k, dens[k], len(nkvs[k]), len(want), kvs[k], nkvs[k]))
-        ctx.check(all(abs(F(x) - w) <= F(1, 10 ** 12) for x, w in zip(nkvs[k], want)), "refined-knot-structure",
+        ctx.check(all(abs(F(x) - w) <= F(1, 10 ** 12) * max(1, abs(w)) for x, w in zip(nkvs[k], want)), "refined-knot-structure",
                   "direction %d density %d: knot vector %r, expected %r" % (k, dens[k], nkvs[k], [float(w) for w in want]))
         ctx.check(nszs[k] == len(want) - p - 1, "refined-net-size", "direction %d: size %d, expected %d" % (k, nszs[k], len(want) - p - 1))
     total = 1
@@ -100,7 +101,7 @@ def check_refine(case, ctx):
 # ------------------------------------------------------------------------------------------------ helper level
 @st.composite
 def _helper_cases(draw, tier):
-    d = draw(gen.spline(kinds=("curve",), max_p=5 if tier == "thorough" else 4, max_extra=6, affine_range="maybe",
+    d = draw(gen.spline(ranges=("far",), kinds=("curve",), max_p=5 if tier == "thorough" else 4, max_extra=6, affine_range="maybe",
                         normalize=False))
     mode = draw(st.sampled_from(["default", "list", "list", "add", "list+add"]))
     where = draw(st.sampled_from(["any", "any", "first-span", "last-span"]))
@@ -206,7 +207,7 @@ def check_helper(case, ctx):
     want = sorted(U + X)
     ctx.check(len(new_kv) == len(want), "helper-knot-count", "knot_refinement returned %d knots, expected %d (%r)" % (len(new_kv), len(want), new_kv))
     ctx.check(all(x <= y for x, y in zip(new_kv, new_kv[1:])), "helper-knots-unsorted", "returned knot vector decreases: %r" % (new_kv,))
-    ctx.check(all(abs(F(x) - w) <= F(1, 10 ** 12) for x, w in zip(new_kv, want)), "helper-knot-vector",
+    ctx.check(all(abs(F(x) - w) <= F(1, 10 ** 12) * max(1, abs(w)) for x, w in zip(new_kv, want)), "helper-knot-vector",
               "returned knot vector %r, expected %r" % (new_kv, [float(w) for w in want]))
     ctx.check(len(new_cp) == n + len(X), "helper-net-size", "returned %d control points, expected %d" % (len(new_cp), n + len(X)))
     lat = shape.lattice([p], [new_kv], [n + len(X)], limit=11)
